@@ -23,7 +23,7 @@ LEVEL_NOTE = (
     "poles at integers (known finding K3) are excluded by construction: 1/(N + r) only with half-integer r. "
     "Bounds: <= 3 modes, words <= 6 atoms, trees of depth <= 4, cutoff = degree + 2."
 )
-TECHNIQUE = "property-based testing (Hypothesis): NumberOrderedForm operations vs an independent Fock-space matrix model"
+TECHNIQUE = "property-based testing (Hypothesis): NumberOrderedForm operations vs an independent Fock-space matrix model + coverage-guided fuzzing stage (atheris/libFuzzer driving the same strategy and oracle)"
 BUDGET = {"quick": 8000, "thorough": 200000}
 FUZZ = {"quick": 3200, "thorough": 160000}  # executions of the coverage-guided stage (vlib/fuzz.py)
 SHRINK_SECONDS = {"quick": 30, "thorough": 150}
